@@ -231,6 +231,49 @@ func extraPrograms() []*Prog {
 		add(term.Op("not", B, term.Op("and", B, term.Op("=", B, sv(), term.Const(lit), sv()), b())))
 		add(term.If(term.Op("=", B, sv(), term.Const(lit)), term.Op("+", I, n(), term.Const(1), term.Const(2), term.Const(3), term.Const(4), term.Const(5), term.Const(6), term.Const(7), term.Const(8)), term.Const(0)))
 	}
+	// every comparison spelling over every literal/variable operand form (the
+	// variable domain {0,1} against the literals 0 and 1 gives less, equal and
+	// greater in either position), bare and as operand of and / if / not
+	{
+		m := func() *term.Term { return term.Var("m", I) }
+		for _, cmp := range []string{"gt", ">", "lt", "<", "ge", ">=", "le", "<=", "eq", "=", "==", "ne", "!="} {
+			for _, c := range []int64{0, 1} {
+				forms := []*term.Term{
+					term.Op(cmp, B, term.Const(c), n()),
+					term.Op(cmp, B, n(), term.Const(c)),
+					term.Op(cmp, B, term.Const(c), term.Const(int64(1))),
+				}
+				if c == 0 {
+					forms = append(forms, term.Op(cmp, B, n(), m()), term.Op(cmp, B, n(), n()))
+				}
+				for _, f := range forms {
+					add(f)
+					add(term.Op("and", B, b(), f.Clone()))
+					add(term.Op("not", B, f.Clone()))
+					add(term.If(f.Clone(), n(), term.Const(int64(7))))
+				}
+			}
+		}
+		// two comparisons of one variable against two bounds under one and/or
+		// (a range check and its relatives): lazy, operand by operand
+		k := func() *term.Term { return term.Var("k", I) }
+		cmps := []string{"<", "<=", ">", ">=", "=", "!="}
+		for _, c1 := range cmps {
+			for _, c2 := range cmps {
+				add(term.Op("and", B, term.Op(c1, B, n(), m()), term.Op(c2, B, n(), k())))
+				add(term.Op("or", B, term.Op(c1, B, n(), m()), term.Op(c2, B, n(), k())))
+			}
+		}
+		add(term.Op("and", B, term.Op("ge", B, n(), m()), term.Op("le", B, n(), k())))
+		add(term.Op("and", B, b(), term.Op(">=", B, n(), term.Const(int64(0))), term.Op("<=", B, n(), k())))
+		add(term.Op("and", B, term.Op("<=", B, n(), k()), b(), term.Op(">=", B, n(), m())))
+		for _, c := range []int64{0, 1} {
+			add(term.Op("between", B, n(), term.Const(c), term.Const(int64(1))))
+			add(term.Op("between", B, term.Const(c), n(), term.Const(int64(1))))
+			add(term.Op("between", B, term.Const(c), term.Const(int64(0)), n()))
+			add(term.Op("between", B, n(), m(), term.Const(c)))
+		}
+	}
 	for _, ne := range []string{"!=", "ne"} {
 		add(term.Op(ne, B, n(), F.Clone()))
 		add(term.Op(ne, B, F.Clone(), n()))
